@@ -80,9 +80,10 @@ check("C02", "exploration",
       required_probes=["insert_hinted", "erase_leaf", "erase_one_child", "erase_two_children_succ_is_child",
                        "erase_two_children_succ_deeper", "erase_root"])
 check("C07", "exploration",
-      [dict(world="heap", mode=7, variants=V_TREES, quick=60000, thorough=4000000)],
+      [dict(world="heap", mode=7, variants=V_TREES, quick=60000, thorough=4000000),
+       dict(world="heap", mode=107, variants={"rel": 0.7, "dbg": 0.3}, quick=40, thorough=2000)],
       RULE_SEQ, ["src/heap.c", "src/common.c", "src/bintree.c", "include/cstl/heap.h"],
-      required_probes=["push_to_2^k", "pop_from_2^k", "pop_empty", "swap", "heap_reached_256"])
+      required_probes=["push_to_2^k", "pop_from_2^k", "pop_empty", "swap", "heap_reached_256", "huge_heap", "huge_heap_2^16"])
 
 mtext("C01",
       "Seeded random histories (60k quick / 6M thorough; key universes 1..1500 with heavy duplication, ascending/descending/zig-zag streams, hinted and unhinted inserts, "
